@@ -169,7 +169,20 @@ class Borealis(TDM):
                         f"'{type(cmds[1].op).__name__}' on mode(s) {wires_1}."
                     )
 
-            seq.extend(circuit[len(seq) :])
+            # the program ends before the layout does: the remaining layout commands are appended
+            # as they are. Loop offsets among them have not been set by the user; any other gate
+            # with an unbound template parameter cannot be completed by the compiler
+            remaining = circuit[len(seq) :]
+            for cmd in remaining:
+                if self._is_loop_offset(cmd.op):
+                    self._user_offsets.append(False)
+                elif any(isinstance(p, FreeParameter) for p in cmd.op.p):
+                    wires = {m.ind for m in cmd.reg}
+                    raise CircuitError(
+                        "Compilation not possible due to incompatible topologies. Program ends "
+                        f"before '{type(cmd.op).__name__}' on mode(s) {wires}."
+                    )
+            seq.extend(remaining)
 
         # pass the circuit sequence to the general TMD compiler to make sure that
         # it corresponds to the correct device layout in the specification
